@@ -510,6 +510,39 @@ func runC16(c *Ctx, r *Report) {
 		if table == nil {
 			r.Undecided("C16.R3: token.interning not found")
 		} else {
+			// the key under which a token is interned is the token itself (type and the whole literal)
+			tokT := c.TypeNamed("token", "Token")
+			nKeys := 0
+			for _, fn := range c.ModuleSSAFuncs() {
+				eachInstr(fn, func(in ssa.Instruction) {
+					var key ssa.Value
+					switch x := in.(type) {
+					case *ssa.MapUpdate:
+						if ld, ok := x.Map.(*ssa.UnOp); ok && ld.X == ssa.Value(table) {
+							key = x.Key
+						}
+					case *ssa.Lookup:
+						if ld, ok := x.X.(*ssa.UnOp); ok && ld.X == ssa.Value(table) {
+							key = x.Index
+						}
+					}
+					if key == nil {
+						return
+					}
+					nKeys++
+					okKey := types.Identical(key.Type(), tokT)
+					if okKey {
+						// the whole token value: a load through the pointer being interned
+						ld, isLoad := key.(*ssa.UnOp)
+						okKey = isLoad && types.Identical(ld.X.Type(), types.NewPointer(tokT))
+					}
+					r.Check(okKey, "C16.R3", ssaFuncName(fn), "the interning table is keyed by the whole token", c.Pos(in.Pos()),
+						"the key used with the interning table is not the token value itself ("+typeShort(key.Type())+"): two tokens that differ somewhere the key does not look (the middle of a long literal) are interned as one, and the later one is printed with the earlier one's text")
+				})
+			}
+			if nKeys < 2 {
+				r.Undecided("C16.R3: only %d accesses to the interning table found", nKeys)
+			}
 			// functions that replace or shrink the table
 			shrinkers := map[*ssa.Function]string{}
 			fns := c.ModuleSSAFuncs()
@@ -555,7 +588,7 @@ func runC16(c *Ctx, r *Report) {
 			}
 		}
 	}
-	r.Floor("C16.R3", 6)
+	r.Floor("C16.R3", 8)
 
 	// ---- R4 ----
 	{
